@@ -50,6 +50,7 @@ func c16Enum(yield func(c16Case)) {
 		}
 		if sp, ok := fnSpecByName[n]; ok && sp.Example != "" {
 			yield(c16Case{Name: n, Exp: sp.Spec == "STU", Kind: "example"})
+			yield(c16Case{Name: n, Exp: true, Kind: "discriminates"})
 		}
 	}
 }
@@ -94,6 +95,27 @@ func c16Run(ctx *Ctx, c c16Case) {
 	vars := fnVars()
 	input := fixtureInput(fixturePatient())
 
+	if c.Kind == "discriminates" {
+		// harness self-check, never a violation: the characteristic example of f,
+		// re-spelled with every other implemented function g, must give another outcome -
+		// otherwise binding the name f to g's implementation would go unnoticed
+		ctx.Eval("discriminates|"+c.Name, true, "kind:discriminates")
+		if !inTable || placeholder {
+			return
+		}
+		for _, g := range tableFuncs() {
+			if g.Name == c.Name || placeholderFuncs()[g.Name] {
+				continue
+			}
+			o := evalWith(strings.ReplaceAll(sp.Example, c.Name+"(", g.Name+"("), input, vars, copts...)
+			if !o.failed() && renderColl(o.Coll) == sp.Want {
+				ctx.Count("example_does_not_discriminate:" + c.Name + "/" + g.Name)
+			} else {
+				ctx.Count("example_pairs_discriminated")
+			}
+		}
+		return
+	}
 	if c.Kind == "example" {
 		ctx.Eval("example|"+c.Name, true, "kind:example")
 		if !inTable || placeholder {
@@ -162,7 +184,7 @@ func c16Run(ctx *Ctx, c c16Case) {
 
 func TestC16(t *testing.T) {
 	r := newRec("C16",
-		"exhaustive: every name of the N1 function list (hand-copied, incl. not(), R4 extension(), STU join()) ∪ every name in funcs.Clone() ∪ the experimental table ∪ a few absent/mis-cased names × argument counts 0..4 × {default, WithExperimentalFuncs}, plus one characteristic example per specified function; non-trivial = the name is in the table or the count is within the specification's range (the cells where acceptance matters); all tuples are distinct",
+		"exhaustive: every name of the N1 function list (hand-copied, incl. not(), R4 extension(), STU join()) ∪ every name in funcs.Clone() ∪ the experimental table ∪ a few absent/mis-cased names × argument counts 0..4 × {default, WithExperimentalFuncs}, plus one characteristic example per specified function (a concatenation of probes chosen so that no other table function gives the same result: counter example_pairs_discriminated, and example_does_not_discriminate:f/g for any pair left); non-trivial = the name is in the table or the count is within the specification's range (the cells where acceptance matters); all tuples are distinct",
 		"the N1 function list, argument counts and examples in harness/common_fn_test.go are copied from the specification by hand", "placeholder entries are recognised as the one function value bound to ≥ 3 names")
 	runProperty(t, r, Stage[c16Case]{Name: "table", Enum: c16Enum, Run: c16Run})
 }
